@@ -194,7 +194,7 @@ func (f recFinStore) SaveFinalization(ctx context.Context, h uint64, r uint32, b
 		f.s.mu.Lock()
 		f.s.fins[h] = struct{}{}
 		f.s.mu.Unlock()
-		f.s.rec.add(M{"t": "write", "store": "fin", "h": h, "r": r})
+		f.s.rec.add(M{"t": "write", "store": "fin", "h": h, "r": r, "_vs": f.s.hub.vsLabel(vs)})
 	}
 	return err
 }
@@ -230,7 +230,8 @@ func (s recSigner) Precommit(ctx context.Context, vt tmconsensus.VoteTarget) ([]
 	return s.inner.Precommit(ctx, vt)
 }
 func (s recSigner) SignProposedHeader(ctx context.Context, ph *tmconsensus.ProposedHeader) error {
-	s.rec.add(M{"t": "sign", "kind": "proposal", "h": ph.Header.Height, "r": ph.Round, "target": string(ph.Header.DataID)})
+	s.rec.add(M{"t": "sign", "kind": "proposal", "h": ph.Header.Height, "r": ph.Round, "target": string(ph.Header.DataID),
+		"_vs": s.hub.vsLabel(ph.Header.ValidatorSet), "_nvs": s.hub.vsLabel(ph.Header.NextValidatorSet)})
 	return s.inner.SignProposedHeader(ctx, ph)
 }
 func (s recSigner) PubKey() gcrypto.PubKey { return s.inner.PubKey() }
@@ -443,8 +444,42 @@ func (h *smHub) proposedHeader(height uint64, round uint32, id string) tmconsens
 	return h.w.ProposedHeader(h.blockLabel(height, id), round, 2, "ok", true)
 }
 
+// smFinSet is the validator set the driver returns when it finalizes height h (it applies from h+2 on);
+// smVSAt is the set the chain prescribes for height h (checks/sm_worlds.py has the same rule).
+func smFinSet(h uint64) string {
+	if h%2 == 1 {
+		return "G2"
+	}
+	return "G"
+}
+
+func smVSAt(h uint64) string {
+	if h <= 2 {
+		return "G"
+	}
+	return smFinSet(h - 2)
+}
+
+// vsLabel names a validator set of the world by its hashes ("?" if it is none of them).
+func (h *smHub) vsLabel(vs tmconsensus.ValidatorSet) string {
+	for id, x := range h.w.Valsets {
+		if string(x.PubKeyHash) == string(vs.PubKeyHash) && string(x.VotePowerHash) == string(vs.VotePowerHash) && len(x.Validators) == len(vs.Validators) {
+			same := true
+			for i := range x.Validators {
+				if x.Validators[i].Power != vs.Validators[i].Power || !x.Validators[i].PubKey.Equal(vs.Validators[i].PubKey) {
+					same = false
+				}
+			}
+			if same {
+				return id
+			}
+		}
+	}
+	return "?"
+}
+
 func (h *smHub) proofs(kind string, height uint64, round uint32, votes map[string][]int) map[string]gcrypto.CommonMessageSignatureProof {
-	vs := h.w.Valsets[h.w.Def.Genesis]
+	vs := h.w.Valsets[smVSAt(height)]
 	out := map[string]gcrypto.CommonMessageSignatureProof{}
 	for t, signers := range votes {
 		hash := h.hash(height, t)
@@ -453,7 +488,7 @@ func (h *smHub) proofs(kind string, height uint64, round uint32, votes map[strin
 			panic(err)
 		}
 		for _, pos := range signers {
-			sig, err := h.w.Signer(h.w.Def.Valsets[h.w.Def.Genesis].Keys[pos-1]).Sign(context.Background(), h.w.SignBytes(kind, height, round, hash))
+			sig, err := h.w.Signer(h.w.Def.Valsets[smVSAt(height)].Keys[pos-1]).Sign(context.Background(), h.w.SignBytes(kind, height, round, hash))
 			if err != nil {
 				panic(err)
 			}
@@ -467,7 +502,7 @@ func (h *smHub) proofs(kind string, height uint64, round uint32, votes map[strin
 }
 
 func (h *smHub) concreteView(v absView) tmconsensus.VersionedRoundView {
-	vs := h.w.Valsets[h.w.Def.Genesis]
+	vs := h.w.Valsets[smVSAt(v.H)]
 	rv := tmconsensus.RoundView{
 		Height: v.H, Round: v.R, ValidatorSet: vs,
 		PrevCommitProof: tmconsensus.CommitProof{Proofs: map[string][]gcrypto.SparseSignature{}},
@@ -483,8 +518,8 @@ func (h *smHub) concreteView(v absView) tmconsensus.VersionedRoundView {
 			prevLabel = h.blockLabel(v.H-1, "A")
 		}
 		if _, known := h.w.Def.Hdr[prevLabel]; known {
-			rv.PrevCommitProof = tmconsensus.CommitProof{Round: 0, PubKeyHash: string(vs.PubKeyHash),
-				Proofs: h.w.SparseProofs("precommit", v.H-1, 0, h.w.Def.Genesis, map[string][]vc.Entry{prevLabel: {{Pos: 1, Cls: "ok"}, {Pos: 2, Cls: "ok"}, {Pos: 3, Cls: "ok"}}})}
+			rv.PrevCommitProof = tmconsensus.CommitProof{Round: 0, PubKeyHash: string(h.w.Valsets[smVSAt(v.H-1)].PubKeyHash),
+				Proofs: h.w.SparseProofs("precommit", v.H-1, 0, smVSAt(v.H-1), map[string][]vc.Entry{prevLabel: {{Pos: 1, Cls: "ok"}, {Pos: 2, Cls: "ok"}, {Pos: 3, Cls: "ok"}}})}
 		}
 	}
 	for _, id := range v.Phs {
@@ -600,7 +635,7 @@ func (r *smRig) start() {
 					r.hub.mu.Unlock()
 				} else {
 					hdr := r.w.Header(r.hub.blockLabel(re.H, resp.Block))
-					vsid := r.w.Def.Genesis
+					vsid := smVSAt(re.H)
 					rer.CH = tmconsensus.CommittedHeader{Header: hdr, Proof: tmconsensus.CommitProof{Round: resp.R,
 						PubKeyHash: string(r.w.Valsets[vsid].PubKeyHash),
 						Proofs: r.w.SparseProofs("precommit", re.H, resp.R, vsid, map[string][]vc.Entry{r.hub.blockLabel(re.H, resp.Block): {{Pos: 1, Cls: "ok"}, {Pos: 2, Cls: "ok"}, {Pos: 3, Cls: "ok"}}})}}
@@ -1039,7 +1074,7 @@ func (rn *smRunner) run(b smBehaviour) {
 			hub.mu.Unlock()
 			select {
 			case fr.Resp <- tmdriver.FinalizeBlockResponse{Height: fr.Header.Height, Round: fr.Round, BlockHash: fr.Header.Hash,
-				Validators: w.Valsets[w.Def.Genesis].Validators, AppStateHash: []byte(fmt.Sprintf("app_state_%d", fr.Header.Height))}:
+				Validators: w.Valsets[smFinSet(fr.Header.Height)].Validators, AppStateHash: []byte(fmt.Sprintf("app_state_%d", fr.Header.Height))}:
 			case <-time.After(5 * time.Second):
 				rn.out.Emit(vc.M{"kind": "inconclusive", "beh": b.ID, "step": i, "why": "finalization response channel full"})
 				return
@@ -1221,7 +1256,27 @@ func (rn *smRunner) run(b smBehaviour) {
 		// ---- predicates on the real outputs
 		for _, o := range outs {
 			switch o["t"] {
+			case "write":
+				// C07: the finalization store records the validator set the driver returned for that height
+				if o["store"] == "fin" {
+					if got, want := fmt.Sprint(o["_vs"]), smFinSet(toU64(o["h"])); got != want {
+						rn.viol(b.ID, i, "C07", "FinalizationStoresDriverSet", s.Op, got+"!="+want,
+							fmt.Sprintf("the finalization of height %v was stored with validator set %s; the driver returned %s", o["h"], got, want))
+					}
+				}
 			case "sign":
+				// C07: a header the state machine proposes carries the sets the chain prescribes for its height and the next
+				if o["kind"] == "proposal" {
+					hh := toU64(o["h"])
+					if got, want := fmt.Sprint(o["_vs"]), smVSAt(hh); got != want {
+						rn.viol(b.ID, i, "C07", "ProposesWithChainSets", s.Op, "vs:"+got+"!="+want,
+							fmt.Sprintf("the header proposed at height %d carries validator set %s; the chain prescribes %s (what the driver returned when finalizing height %d)", hh, got, want, hh-2))
+					}
+					if got, want := fmt.Sprint(o["_nvs"]), smVSAt(hh+1); got != want {
+						rn.viol(b.ID, i, "C07", "ProposesWithChainSets", s.Op, "nvs:"+got+"!="+want,
+							fmt.Sprintf("the header proposed at height %d carries next validator set %s; the chain prescribes %s", hh, got, want))
+					}
+				}
 				key := signKey{fmt.Sprint(o["kind"]), toU64(o["h"]), uint32(toU64(o["r"]))}
 				signs[key]++
 				if signs[key] > 1 {
